@@ -34,14 +34,17 @@ RULE = ("cases = scripted archetypes over hand-built MPCalProc tables from one P
 def gen_case(rng, malformed=False):
     nprocs = rng.randint(1, 3)
     procs, labels = [], {}
-    names = ["P%d" % i for i in range(nprocs)]
+    # procedure names that are prefixes of one another (labels are qualified by the procedure name)
+    names = rng.choice([["P", "PP", "PPQ"], ["walk", "walkBack", "w"], ["P0", "P1", "P2"]])[:nprocs]
+    names = sorted(names)
     shape = {}
     for p in names:
         has_b = rng.random() < 0.6
         b_ref = has_b and rng.random() < 0.5
         has_z = rng.random() < 0.5
         vs = [p + ".a"] + ([p + ".b"] if has_b else []) + ([p + ".z"] if has_z else [])
-        pre = [[p + ".z", rng.choice([None, 0, "z0"])]] if has_z else []
+        # the local's initialiser: a constant, or an expression over the parameter (evaluated after the arguments are bound)
+        pre = [[p + ".z", rng.choice([None, 0, "z0", ["add", ["v", p + ".a"], 10], ["add", ["v", p + ".a"], 10], ["v", p + ".a"]])]] if has_z else []
         # what a by-reference parameter is used for decides what it may be bound to: rw = a variable (an archetype
         # local, or a non-local variable resource), w = an output channel, r = an input channel
         shape[p] = {"b": has_b, "bref": b_ref, "z": has_z, "nargs": 1 + (1 if has_b else 0),
@@ -201,13 +204,13 @@ class Ref:
         vs = {v: None for v in p["vars"]}
         for v, a in zip(p["vars"], args):
             vs[v] = a
-        for v, x in p["pre"]:
-            vs[v] = x
         if p["label"] not in self.case["labels"]:
             raise Crash()
         if any(a["proc"] == pname for a in self.acts):
             self.stats["recursive"] += 1
         self.acts.append({"proc": pname, "vars": vs, "ret": ret})
+        for v, x in p["pre"]:                    # initialisers see the new activation's parameters
+            vs[v] = self.ev(x) if isinstance(x, list) else x
         self.stats["calls"] += 1
         self.stats["maxdepth"] = max(self.stats["maxdepth"], len(self.acts))
         self.pc = p["label"]
@@ -449,7 +452,11 @@ def run(ctx):
     ctx.samples = [{"labels": c["labels"], "procs": c["procs"], "go_log": c["_res"].get("log"), "go_attempts": (c["_res"].get("attempts") or [])[:3]} for c in cases[:3]]
     if ctx.coq_ok:
         from concurrent.futures import ThreadPoolExecutor
-        ok_cases = [c for c in cases if not (c["_res"].get("err") and c["_res"]["err"] != "budget")]
+        # the model's preamble holds constants only: scripts whose local initialisers read a parameter are checked
+        # by the implementation-side oracle alone
+        has_expr_pre = lambda c: any(isinstance(w[1], list) for p in c["procs"] for w in p["pre"])
+        ok_cases = [c for c in cases if not (c["_res"].get("err") and c["_res"]["err"] != "budget") and not has_expr_pre(c)]
+        ctx.extra["oracle_only_scripts"] = sum(1 for c in cases if has_expr_pre(c))
         shard = 90 if ctx.tier == "quick" else 300
         parts = [ok_cases[s:s + shard] for s in range(0, len(ok_cases), shard)]
 
